@@ -221,7 +221,7 @@ End Download.
 (* ---- a history: any number of `install` / `download` calls one after the other on the same install
    directory, each with its own server behaviour, untar behaviour, attempt count and flags.  Only the
    archive file and the installed index persist from one call to the next. *)
-Inductive call_kind := KInstall | KDownload.
+Inductive call_kind := KInstall | KDownload | KList.   (* KList: `list` = Dataset.prob_status() on its own *)
 Record call := mkCall { k_kind : call_kind; k_srv : server; k_untar : bytes -> bool; k_attempts : nat;
                         k_force : bool; k_noclean : bool }.
 
@@ -229,12 +229,31 @@ Definition run_call (sha : bytes -> string) (name expected : string) (c : call) 
   match k_kind c with
   | KInstall => install_n sha (k_srv c) name expected (k_untar c) (k_attempts c) (k_force c) (k_noclean c) s
   | KDownload => download_cmd sha (k_srv c) name expected (k_attempts c) (k_force c) s
+  | KList => prob_status sha (k_srv c) name expected s
   end.
 
 Fixpoint run_calls (sha : bytes -> string) (name expected : string) (cs : list call) (s : lstate) : lstate :=
   match cs with
   | [] => s
   | c :: cs' => run_calls sha name expected cs' (final (run_call sha name expected c s))
+  end.
+
+(* ---- a history during which the dataset index is RE-PUBLISHED (the `update` command, or anything else that
+   rewrites kapture_dataset_index.yaml): every call comes with the checksum the index file publishes at the moment
+   of that call.  InstallDir.load_datasets_from_file reads the file on every call, so nothing but the archive file
+   and the installed index is carried over — in particular no checksum of an earlier publication. *)
+Fixpoint run_pub (sha : bytes -> string) (name : string) (cs : list (string * call)) (s : lstate) : lstate :=
+  match cs with
+  | [] => s
+  | (e, c) :: cs' => run_pub sha name cs' (final (run_call sha name e c s))
+  end.
+
+(* a typical regression: the parsed index is cached in the InstallDir object, every later call of the session
+   verifies against the checksum of the FIRST publication.  Used only to show that the theorem is able to fail. *)
+Definition run_pub_cached (sha : bytes -> string) (name : string) (cs : list (string * call)) (s : lstate) : lstate :=
+  match cs with
+  | [] => s
+  | (e, _) :: _ => run_calls sha name e (List.map snd cs) s
   end.
 
 (* ---- an honest server for an archive [good]: tells the true size, honours Range *)
@@ -305,6 +324,7 @@ Inductive obs_outcome :=
 
 (* one call of a history and what the implementation was observed to do in it *)
 Record step := {
+  t_expected : string;              (* sha256sum the index file publishes when this call is made *)
   t_kind : call_kind; t_force : bool; t_noclean : bool; t_untar_fails : bool;
   t_script : list response;         (* the concrete responses the fake server gave during this call *)
   o_outcome : obs_outcome;
@@ -316,13 +336,14 @@ Record step := {
 
 (* a case = a prior local state and a history of calls on the same install directory *)
 Record case := {
-  c_name : string; c_expected : string; c_sha : list (bytes * string);
+  c_name : string; c_sha : list (bytes * string);
   c_archive : option bytes; c_index : list string;
   c_steps : list step
 }.
 
-Definition check_step (sha : bytes -> string) (name expected : string) (a : option bytes) (idx : list string)
+Definition check_step (sha : bytes -> string) (name : string) (a : option bytes) (idx : list string)
            (t : step) : bool * lstate :=
+  let expected := t_expected t in
   let s0 := mkSt a idx [] [] in
   let c := mkCall (t_kind t) (srv_of_script (t_script t)) (fun _ => t_untar_fails t) 2 (t_force t) (t_noclean t) in
   let r := run_call sha name expected c s0 in
@@ -339,16 +360,21 @@ Definition check_step (sha : bytes -> string) (name expected : string) (a : opti
    && all2 event_eqb (rev (log sf)) (o_log t), sf).
 
 (* the model is iterated over the history: what it carries from one call to the next is its own archive
-   content and index, nothing else — a file the implementation leaves behind that changes a later call's
+   content and index, nothing else — a file the implementation leaves behind, or anything an InstallDir object
+   that lives across calls remembers (e.g. an earlier publication of the index), that changes a later call's
    behaviour shows up as a mismatch in that later step *)
-Fixpoint check_steps (sha : bytes -> string) (name expected : string) (a : option bytes) (idx : list string)
+Fixpoint check_steps (sha : bytes -> string) (name : string) (a : option bytes) (idx : list string)
          (ts : list step) : bool :=
   match ts with
   | [] => true
   | t :: ts' =>
-    let (ok, sf) := check_step sha name expected a idx t in
-    ok && check_steps sha name expected (archive sf) (index sf) ts'
+    let (ok, sf) := check_step sha name a idx t in
+    ok && check_steps sha name (archive sf) (index sf) ts'
   end.
 
 Definition check_case (c : case) : bool :=
-  check_steps (sha_of_table (c_sha c)) (c_name c) (c_expected c) (c_archive c) (c_index c) (c_steps c).
+  check_steps (sha_of_table (c_sha c)) (c_name c) (c_archive c) (c_index c) (c_steps c).
+
+(* the model run of a case IS a re-published history in the sense of [run_pub] (see PDownload.check_steps_run_pub) *)
+Definition call_of_step (t : step) : string * call :=
+  (t_expected t, mkCall (t_kind t) (srv_of_script (t_script t)) (fun _ => t_untar_fails t) 2 (t_force t) (t_noclean t)).
